@@ -6,8 +6,9 @@ is bit-for-bit identical to the first one with that counter, and a freshly chose
 identifier of a live session / exchange. The wire tap of the C09 adversary schedules (TLC-simulated and all schedules with up
 to two faults, which force retransmissions of requests, responses and acknowledgement-carrying messages) is validated by
 TLC against these rules, together with an identifier sweep: more than 2^16 exchange-id and session-id allocations on a
-real session table while two exchanges and two sessions stay alive. The handshake-message schedules are contributed by
-the C01 / C02 checks' taps when present."""
+real session table while two exchanges and two sessions stay alive. Session establishment: every message of the PASE, CASE and
+CASE-resumption handshakes is lost once or twice or answered late in the handshake world (real device, real initiators), and
+TLC validates on the wire tap that equal counters mean equal bytes (HsWireTrace.tla)."""
 from checks import c09
 
 def run(tier, seed):
